@@ -100,14 +100,22 @@ class C10Monitor(X.Monitor):
                 self._check_filter_results(ctx, lane, st, rec)
         self._check_end_to_end(ctx, lane, st)
 
+    @staticmethod
+    def _lane_cfg(ctx, lane):
+        cfg = ctx.plan["config"]
+        if lane.token_map and cfg.get("target_uuids"):
+            cfg = dict(cfg, target_uuids=[lane.token_map.get(u, u) for u in cfg["target_uuids"]])
+        return cfg
+
     def _check_end_to_end(self, ctx, lane, st):
         """Whatever calls the evaluator makes internally: the ground truth a frame result ends up with is exactly the
         handed-in frame's objects that satisfy the evaluator's criteria and the per-frame critical criteria, and every
         estimate that is still part of a result satisfies both sets of criteria too."""
         if st.result is None or st.gt_snapshot is None:
             return
-        cfg_params = V.filter_params(lane.config.filtering_params)
-        crit_params = V.filter_params(st.crit.filtering_params)
+        # the criteria as the plan configured them -- not as the evaluator's own config objects happen to hold them
+        cfg_params = V.plan_filter_params(self._lane_cfg(ctx, lane))
+        crit_params = V.plan_filter_params(ctx.plan["config"], st.crit_spec)
         expect, undecided = [], set()
         for g in st.gt_snapshot:
             view = V.filter_view(g, st.ego_ref)
@@ -337,10 +345,10 @@ class MatchingMonitor(X.Monitor):
         unpaired estimate."""
         if st.result is None:
             return
-        cfg = lane.config
-        radii = cfg.filtering_params.get("max_matchable_radii")
-        labels = [l.value for l in cfg.target_labels]
-        fpv = ctx.plan["config"]["task"] == "fp_validation"
+        pcfg = ctx.plan["config"]
+        labels = [V.canonical_label(l, bool(pcfg["merge"])) for l in pcfg["target_labels"]]
+        radii = V._per_label(pcfg.get("radii"), len(labels))     # as the plan configured them
+        fpv = pcfg["task"] == "fp_validation"
         seen_e, seen_g = set(), set()
         for r in st.result.object_results:
             e, g = r.estimated_object, r.ground_truth_object
@@ -719,6 +727,10 @@ class C03Monitor(X.Monitor):
         # --- a TP is justified -----------------------------------------------------------------------
         pf_labels = [l.value for l in st.pf.target_labels]
         pf_thr = st.pf.matching_threshold_list
+        if st.pf_spec.get("labels") is not None:
+            # the per-label pass/fail thresholds as the plan configured them (labels None = "all labels": the family's own order)
+            pf_labels = [V.canonical_label(l, bool(ctx.plan["config"]["merge"])) for l in st.pf_spec["labels"]]
+            pf_thr = None if st.pf_spec.get("thr") is None else list(st.pf_spec["thr"])
         for r in tp:
             g = r.ground_truth_object
             if g is None:
@@ -744,7 +756,7 @@ class C03Monitor(X.Monitor):
                     ctx.violate("C03", "tp_is_justified", "TP whose pass/fail score does not beat the threshold of its GT label",
                                 {"score": val, "threshold": thr, "gt_label": V.label_of(g)}, st.index)
         # --- region ---------------------------------------------------------------------------------
-        params = V.filter_params(st.crit.filtering_params)
+        params = V.plan_filter_params(ctx.plan["config"], st.crit_spec)   # the critical region as the plan configured it
         for kind, seq in (("TP", tp), ("FP", fp)):
             for r in seq:
                 for o, is_gt in ((r.estimated_object, False), (r.ground_truth_object, True)):
